@@ -70,8 +70,8 @@ PLAN = {
         vacuity=[("ctx4", [], "ctx-last")],
     ),
     "C17": dict(
-        quick=[("lc5", dict(cap=1500)), ("lc_open", dict(cap=1000)), ("scope_open", dict(cap=3000)), ("torec5", dict(cap=2000)), ("lc_multi_q", dict(cap=1500)), ("lc_multi_p", dict(cap=2000)), ("lc_late_p", dict(cap=1500))],
-        thorough=["lc5", "lc_open", "scope_open", "torec5", "lc_multi_q", "lc_multi_p", "lc_late_p", ("lc_multi", dict(cap=20000, timeout=1200)), ("lc6", dict(cap=20000, timeout=2400))],
+        quick=[("lc5", dict(cap=1500)), ("lc_open", dict(cap=1000)), ("scope_open", dict(cap=3000)), ("torec5", dict(cap=2000)), ("lc_multi_q", dict(cap=1500)), ("lc_multi_p", dict(cap=2000)), ("lc_late_p", dict(cap=1500)), ("lc_cross_p", dict(cap=1500))],
+        thorough=["lc5", "lc_open", "scope_open", "torec5", "lc_multi_q", "lc_multi_p", "lc_late_p", "lc_cross_p", ("lc_multi", dict(cap=20000, timeout=1200)), ("lc6", dict(cap=20000, timeout=2400))],
         vacuity=[("lc_multi_q", [], "push-once")],
     ),
 }
